@@ -125,6 +125,14 @@ AffectedArea(d) ==
   ELSE LET xs == { p[1] : p \in DOMAIN d.cells }  ys == { p[2] : p \in DOMAIN d.cells } IN
        WithCorners(<<SetMin(xs), SetMin(ys)>>, <<SetMax(xs), SetMax(ys)>>)
 
+\* affected_area of any cell function (used for the displays derived from a display: diff, swap_xy, map)
+AffectedAreaOf(cells) ==
+  IF DOMAIN cells = {} THEN Zero
+  ELSE LET xs == { p[1] : p \in DOMAIN cells }  ys == { p[2] : p \in DOMAIN cells } IN
+       WithCorners(<<SetMin(xs), SetMin(ys)>>, <<SetMax(xs), SetMax(ys)>>)
+\* swap_xy, mod.rs:424: the cell (x, y) of the result is the cell (y, x)
+SwapXY(cells) == [p \in { <<q[2], q[1]>> : q \in DOMAIN cells } |-> cells[<<p[2], p[1]>>]]
+
 ---------------------------------------------------------------------------
 (* pattern <-> display: the character tables of color_mapping.rs, documented in *)
 (* mod.rs:42-111.  Characters are ASCII codes.                                *)
